@@ -379,14 +379,15 @@ UNITS.append(Unit("C15", "jsonargparse._link_arguments:get_link_actions", gla_se
 # given by the user (its option strings lead to the link), is no longer required, and the link is listed with the links of its phase.
 def li_setup(ctx):
     apply_on = ["parse", "instantiate"][ctx.choose(2, "apply_on")]
-    src_kind = ["one-known", "two-known", "one-unknown", "given-as-tuple"][ctx.choose(4, "sources")]
+    src_kind = ["one-known", "two-known", "one-unknown", "given-as-tuple", "a-key-listed-twice"][ctx.choose(5, "sources")]
     tgt_kind = ["leaf", "unknown", "class-init_arg", "class-whole", "class-bad-key"][ctx.choose(5, "target")]
     required = ctx.choose(2, "target-is-required") == 1
     cyc = ctx.choose(2, "closes-a-cycle") == 1 if apply_on == "instantiate" else False
     has_links_group = ctx.choose(2, "links-declared-before") == 1
     for n in ("ActionLink", "_ActionConfigLoad", "_ActionSubCommands", "ActionConfigFile"):
         ctx.classes.add(n, ["Action"])
-    sources = {"one-known": "a", "two-known": ("a", "b"), "one-unknown": "zz", "given-as-tuple": ("a",)}[src_kind]
+    sources = {"one-known": "a", "two-known": ("a", "b"), "one-unknown": "zz", "given-as-tuple": ("a",),
+               "a-key-listed-twice": ("a", "b", "a")}[src_kind]  # the compute function gets one argument per *listed* source: a repeated key is passed twice
     target = {"leaf": "t", "unknown": "zz.t", "class-init_arg": "m.init_args.k", "class-whole": "m", "class-bad-key": "m.k"}[tgt_kind]
     t_action = Rec("Action", attrs={"dest": "t", "option_strings": ["--t", "-t"], "type": Rec("int"), "help": "help of t"})
     m_action = Rec("ActionTypeHint", attrs={"dest": "m", "option_strings": ["--m"], "_typehint": Rec("Base"), "help": "help of m", "sub_add_kwargs": {}, "type": None})
@@ -417,6 +418,7 @@ def li_setup(ctx):
         # declared for the phase, and text helpers evaluated by CPython on the concrete keys of the scenario
         "get_link_actions": lambda c, a, k: [x for x in links_group.attrs["_group_actions"] if isinstance(x, Rec) and x.attrs.get("apply_on", a[1]) == a[1]],
         "re.sub": lambda c, a, k: __import__("re").sub(a[0], a[1], a[2]),
+        "dict.fromkeys": lambda c, a, k: dict.fromkeys(a[0]), "set": lambda c, a, k: set(a[0]) if a else set(), "sorted": lambda c, a, k: sorted(a[0]),  # (de-duplicating / re-ordering helpers, by CPython on the concrete keys)
     }
     consts = {"ActionLink": ClassRef("ActionLink"), "_ActionConfigLoad": ClassRef("_ActionConfigLoad"), "_ActionSubCommands": ClassRef("_ActionSubCommands"), "ActionConfigFile": ClassRef("ActionConfigFile"), "SUPPRESS": "==SUPPRESS=="}
     fn = [None, Rec("fn", attrs={"__name__": "compute"})][ctx.choose(2, "compute_fn")]
